@@ -585,6 +585,27 @@ def rule_boundary(ctx):
     ctx.floor("boundary callees", len(seen), 8)
 
 
+def rule_move_text(ctx):
+    """The boundary assumption on Board::find_move, decided: the move text (any string the GUI sends) is only ever compared
+    with the notation of the legal moves - it is not parsed, sliced, indexed or converted to a square, so no string can make
+    find_move panic or match a move it does not name."""
+    from . import taint
+    ix = ctx.ix
+    b = ctx.body("board::Board::find_move")
+    texts = [l for l in range(1, b.arg_count + 1) if b.locals[l]["ty"] in ("&str", "&std::string::String", "std::string::String")]
+    ctx.check(len(texts) == 1, "find_move:one-text-argument", "find_move takes the move text as its one string argument", b.where(0), bad_what="find_move has %d string parameters" % len(texts))
+    if len(texts) != 1:
+        return
+    stats = {}
+    uses = taint.text_uses(ix, b, set(texts), stats=stats)
+    for k in stats.get("bodies", ()):
+        ctx.functions.add(k)
+    for ub, bi, what in uses[:6]:
+        ctx.bad("find_move:text-only-compared:%s" % C.short(ub.key), "in %s %s: arbitrary move text reaches code that can panic or accept a string that names no legal move (the text may only be compared with the legal moves' notation)" % (C.short(ub.key), what), ub.where(bi))
+    ctx.check(not uses and stats.get("compares", 0) >= 1, "find_move:text-only-compared", "the move text is only compared (==) with the notation of generated moves; %d comparison site(s), followed through %d function/closure bodies" % (stats.get("compares", 0), len(stats.get("bodies", ()))),
+              b.where(0), bad_what="%d other use(s) of the move text, %d comparison(s)" % (len(uses), stats.get("compares", 0)))
+
+
 def rule_io_and_exits(ctx):
     """uci_loop: the result of read_line is inspected (no unwrap), the loop exits on count 0 (end of input),
     on a read error, and on Quit."""
@@ -889,7 +910,7 @@ def rule_counter_widths(ctx):
 
 
 RULES = [("counter-widths", rule_counter_widths), ("scope", rule_scope), ("index", rule_index), ("arith", rule_arith), ("no-assert-on-input", rule_no_assert_on_input),
-         ("unwrap", rule_unwrap), ("boundary", rule_boundary), ("io-exits", rule_io_and_exits), ("nonblocking", rule_nonblocking),
+         ("unwrap", rule_unwrap), ("boundary", rule_boundary), ("move-text", rule_move_text), ("io-exits", rule_io_and_exits), ("nonblocking", rule_nonblocking),
          ("loops", rule_loops), ("errors-continue", rule_errors_continue)]
 # `position fen <valid FEN>` reaches the FEN loader's panic arms only for strings outside the alphabet; that the alphabet the
 # loader accepts is the whole valid one is C07's tables (a half-open `'a'..'h'` makes a valid FEN kill the input thread)
